@@ -4,7 +4,7 @@ from ..cfg import abstract_run
 from ..core import where
 from ..ir import AnalysisBroken
 
-UNITS = ['src/xbt/config.cpp']
+UNITS = ['src/xbt/config.cpp', 'src/simgrid/module.cpp']
 NS = 'simgrid::config::'
 EXPLANATION = ('R1 co-update: in every instantiation of TypedConfigurationElement<T> each store into `content` (set_value, set_default_value, '
                'set_string_value) is followed by update(), which runs the validation callback, on the same path; set_string_value stores exactly '
@@ -169,5 +169,32 @@ def run(ctx):
         if ge and el and te and te[0].args[0] == lib.parm(al, 'aliasname') and te[0].args[1] == el[0]:
             ok3 = True
     ctx.check(ok3, 'R3', 'Config::alias: aliases[aliasname] = get_dict_element(realname)', where(al), '', key='R3|alias|binding')
+    # ---- R4 the validation callback of the model / plugin flags --------------------------------------------------------------------------------------
+    ctx.rule('R4', 'the callback that ModuleGroup::create_flag attaches to a model or plugin flag looks every accepted value up in the table of registered modules '
+             '(by_name dies on an unknown name): each path that returns normally either saw the default value or called by_name(value)', 1)
+    cf = [f for f in P.fns.values() if f['q'].endswith('ModuleGroup::create_flag') and f.get('elems')]
+    ctx.require(len(cf) == 1, 'R4', 'ModuleGroup::create_flag: %d definitions' % len(cf))
+    for f in cf[:1]:
+        lams = [P.fns[n['fn']] for el in f['elems'] for n in ex.walk(el['x']) if n.get('k') == 'Lambda' and n.get('fn') in P.fns and P.fns[n['fn']].get('blocks')]
+        ctx.require(len(lams) == 1, 'R4', 'create_flag: %d callback lambdas' % len(lams))
+        for lf in lams[:1]:
+            lv = A.view(lf)
+            val = lib.parm_i(lf, 0)
+            bad = []
+            nacc = 0
+            for p in lv.paths():
+                if p.exit in ('noreturn', 'cut', 'throw'):
+                    continue
+                evs = lv.path_events(p)
+                isdef = [e.pol for e in evs if e.kind == 'branch' and e.atom[0] in ('truthy', 'bin') and 'default_value' in repr(e.atom) and val in list(ex.subterms(e.atom))]
+                looked = [e for e in evs if e.kind == 'call' and e.q.endswith('ModuleGroup::by_name') and e.args and e.args[0] == val]
+                if isdef and isdef[0]:
+                    continue
+                nacc += 1
+                if not looked:
+                    bad.append(p)
+            ctx.check(nacc >= 1 and not bad, 'R4', 'create_flag callback: every accepted non-default value is looked up with by_name(value)', where(lf),
+                      '%d of %d accepting path(s) never look the value up: an unknown model name is stored' % (len(bad), nacc) if bad else '%d accepting path(s)' % nacc,
+                      key='R4|create_flag callback|value looked up')
     ctx.assume('strtod/strtol/strcasecmp are trusted; command-line splitting of --cfg=name:value is not covered')
     return EXPLANATION
